@@ -11,10 +11,10 @@ CONSTANTS
   ToolModes = {"none", "ok", "fail"}
   NetModes = {"nourl", "offline", "online"}
   Entries = {"plain", "bundled"}
-  Outcomes = {"G", "Th", "Te", "J", "E", "http", "proto", "refused"}
+  Outcomes = {"G", "Th", "Te", "J", "E", "C", "http", "proto", "refused"}
   CrashKinds = {"kill", "intr"}
   InitDocs = {"absent", "empty", "mid", "last", "full", "other"}
-  InitArchs = {"absent", "G", "Th", "Te", "J", "E"}
+  InitArchs = {"absent", "G", "Th", "Te", "J", "E", "C"}
   InitOffs = {"absent", "X", "part", "O", "torn", "bad"}
   InitTmps = {"absent", "stale"}
   ConsVals = {TRUE, FALSE}
